@@ -535,7 +535,9 @@ Lemma gen_refs_follow_transform cs nonstr rules m m' C :
   forall i r r' org row fs flags cands b a t s old,
     nth_error m i = Some r -> nth_error m' i = Some r' -> org_id cs r = Ok org ->
     In row rules -> In fs (nb_referrers row) -> gvk_is_selected (id_gvk org) (fs_gvk fs) = true ->
-    has_suffix "roleRef/name" (fs_path fs) = false ->
+    roleref_sieve (make_ctx cs r (fs_path fs) (nb_gvk row)) b = true ->
+    (has_suffix "roleRef/name" (fs_path fs) = false \/
+     exists g, roleref_gvk (r_node r) = Some g /\ external C (g_group g) /\ external C (g_kind g)) ->
     referencable cs m r = Ok flags -> mapM (view cs) (select_by flags m) = Ok cands ->
     no_ns_key a -> reaches (path_splitter (fs_path fs)) a (r_node r) = true ->
     get_addr a (r_node r) = Some (Scalar t s old) -> is_null (Scalar t s old) = false ->
@@ -797,7 +799,9 @@ Lemma refs_follow_build cs nonstr l hs m rules out C :
   forall i r r' org row fs flags cands j pb b a t s,
     nth_error m i = Some r -> nth_error out i = Some r' -> org_id cs r = Ok org ->
     In row rules -> In fs (nb_referrers row) -> gvk_is_selected (id_gvk org) (fs_gvk fs) = true ->
-    has_suffix "roleRef/name" (fs_path fs) = false ->
+    roleref_sieve (make_ctx cs r (fs_path fs) (nb_gvk row)) b = true ->
+    (has_suffix "roleRef/name" (fs_path fs) = false \/
+     exists g, roleref_gvk (r_node r) = Some g /\ external C (g_group g) /\ external C (g_kind g)) ->
     referencable cs m r = Ok flags -> mapM (view cs) (select_by flags m) = Ok cands ->
     no_ns_key a -> reaches (path_splitter (fs_path fs)) a (r_node r) = true ->
     get_addr a (r_node r) = Some (Scalar t s (get_name (r_node (fst pb)))) ->
@@ -810,7 +814,7 @@ Lemma refs_follow_build cs nonstr l hs m rules out C :
     exists t' s', get_addr a (r_node r') = Some (Scalar t' s' (c_name b)).
 Proof.
   intros Hm Hrules Hrun Hleaves HC Hne i r r' org row fs flags cands j pb b a t s.
-  intros Hr Hr' Horg Hrow Hfs Hsel Hnr Hflags Hcands Hns Hreach Hg Hnn Hpb Hb Hflag Hmatch Hvis Hothers.
+  intros Hr Hr' Horg Hrow Hfs Hsel Hnr1 Hnr2 Hflags Hcands Hns Hreach Hg Hnn Hpb Hb Hflag Hmatch Hvis Hothers.
   pose proof (build_produced cs nonstr l hs m Hm Hleaves) as Hprov.
   destruct (layering_closed cs nonstr _ _ _ Hprov HC j pb b Hb Hothers) as [Hc1 Hc2].
   pose proof (layering_unique cs nonstr _ _ _ Hprov HC j pb b Hb Hothers flags cands _ Hcands Hflag Hmatch) as Hu.
@@ -855,4 +859,67 @@ Proof.
   split; [vm_compute; reflexivity|]. split; [vm_compute; reflexivity|]. split; [vm_compute; reflexivity|].
   intros [|[|k]] p Hk Hp; [contradiction| |destruct k; discriminate].
   vm_compute in Hp. inv Hp. split; vm_compute; reflexivity.
+Qed.
+
+(* ================= the proposed repair (nameref.ResolvedFields) in the model ================= *)
+
+From KV Require Import Res.NameRefResolved.
+
+(* With the repair the two cascade witnesses come out right: the field keeps the name the row of the
+   referent's kind wrote.  (The unrepaired model: cascade_witness / C03_no_retarget_whole_refuted.) *)
+Definition w2_after_r : list resource := unres (nameref_transform_r no_cs no_nonstr gen_rules w2_state).
+
+Example cascade_repaired_hpa :
+  nameref_transform_r no_cs no_nonstr gen_rules w2_state = Ok w2_after_r /\
+  option_map (fun r => get_addr w2_addr (r_node r)) (nth_error w2_after_r 2) = Some (Some (Scalar TNone SPlain "app-s")) /\
+  option_map (fun r => get_name (r_node r)) (nth_error w2_after_r 0) = Some "app-s".
+Proof. split; [vm_compute; reflexivity|]. split; vm_compute; reflexivity. Qed.
+
+(* corpus/C03/builds.json[3]: ConfigMap cm -> p-cm, Secret p-cm -> p-p-cm, ClusterRole resourceNames [cm] *)
+Definition w4_state : list resource := [
+  mkRes (doc "v1" "ConfigMap" "p-cm" []) (Some "cm") (Some "default") (Some "ConfigMap") (Some "p-") None false;
+  mkRes (doc "v1" "Secret" "p-p-cm" []) (Some "p-cm") (Some "default") (Some "Secret") (Some "p-") None false;
+  mkRes (doc "rbac.authorization.k8s.io/v1" "ClusterRole" "p-cr"
+             [("rules", Seq [Map [("resources", Seq [sc "configmaps"]); ("resourceNames", Seq [sc "cm"])]])])
+        (Some "cr") (Some "_non_namespaceable_") (Some "ClusterRole") (Some "p-") None false ].
+Definition w4_cs : string -> string -> bool := fun av k => String.eqb k "ClusterRole".
+Definition w4_addr : list astep := [AKey "rules"; AIdx 0; AKey "resourceNames"; AIdx 0].
+
+Example cascade_repaired_resource_names :
+  option_map (fun r => get_addr w4_addr (r_node r))
+             (nth_error (unres (nameref_transform w4_cs no_nonstr gen_rules w4_state)) 2)
+  = Some (Some (Scalar TNone SPlain "p-p-cm")) /\
+  option_map (fun r => get_addr w4_addr (r_node r))
+             (nth_error (unres (nameref_transform_r w4_cs no_nonstr gen_rules w4_state)) 2)
+  = Some (Some (Scalar TNone SPlain "p-cm")).
+Proof. split; vm_compute; reflexivity. Qed.
+
+(* where no field is shared by several rows the two transformers agree (here: the closed example) *)
+Example resolved_agrees_closed :
+  nameref_transform_r no_cs no_nonstr gen_rules ex_closed_state = nameref_transform no_cs no_nonstr gen_rules ex_closed_state.
+Proof. vm_compute. reflexivity. Qed.
+
+(* non-vacuity of the roleRef/name case: Role admin -> p-admin, a RoleBinding whose roleRef names it *)
+Definition ex_rb_state : list resource := [
+  mkRes (doc "rbac.authorization.k8s.io/v1" "Role" "p-admin" []) (Some "admin") (Some "default") (Some "Role") (Some "p-") None false;
+  mkRes (doc "rbac.authorization.k8s.io/v1" "RoleBinding" "p-rb"
+             [("roleRef", Map [("apiGroup", sc "rbac.authorization.k8s.io"); ("kind", sc "Role"); ("name", sc "admin")])])
+        (Some "rb") (Some "default") (Some "RoleBinding") (Some "p-") None false ].
+Definition ex_rb : resource := nth 1 ex_rb_state (fresh (sc "")).
+Definition ex_rb_C : list cand := unres (mapM (view no_cs) ex_rb_state).
+Definition ex_rb_b : cand := nth 0 ex_rb_C ex_cand0.
+Definition ex_rb_fs : fieldspec := mkFs "rbac.authorization.k8s.io" "" "RoleBinding" "roleRef/name" false.
+Definition ex_role_tg : gvk := gvk_lit "rbac.authorization.k8s.io" "" "Role".
+
+Example roleref_nonvacuous :
+  has_suffix "roleRef/name" (fs_path ex_rb_fs) = true /\
+  roleref_gvk (r_node ex_rb) = Some (gvk_lit "rbac.authorization.k8s.io" "" "Role") /\
+  forallb (fun c => negb (prev_name_matches "rbac.authorization.k8s.io" c) && negb (prev_name_matches "Role" c)) ex_rb_C = true /\
+  roleref_sieve (make_ctx no_cs ex_rb (fs_path ex_rb_fs) ex_role_tg) ex_rb_b = true /\
+  option_map (fun r => get_addr [AKey "roleRef"; AKey "name"] (r_node r))
+             (nth_error (unres (nameref_transform no_cs no_nonstr gen_rules ex_rb_state)) 1)
+  = Some (Some (Scalar TNone SPlain "p-admin")).
+Proof.
+  split; [vm_compute; reflexivity|]. split; [vm_compute; reflexivity|]. split; [vm_compute; reflexivity|].
+  split; vm_compute; reflexivity.
 Qed.
